@@ -14,6 +14,7 @@ import (
 	"bytes"
 	"context"
 	"errors"
+	"fmt"
 	"io"
 	"runtime"
 	"strconv"
@@ -132,8 +133,10 @@ func (f *wfactory) NewHostClient() (pclient.HostClient, error) {
 		return nil, errFactory
 	}
 	in, _ := f.inner.NewHostClient()
-	h := r.newHC(in.(*http1.HostClient))
-	r.emit("New", map[string]interface{}{"p": p, "hc": h.id, "err": false})
+	r.mu.Lock()
+	h := r.newHCLocked(in.(*http1.HostClient))
+	r.emitLocked("New", map[string]interface{}{"p": p, "hc": h.id, "err": false})
+	r.mu.Unlock()
 	return &whc{r: r, h: h, inner: in}, nil
 }
 
@@ -214,6 +217,11 @@ func (w *whc) ShouldRemove() bool {
 func (w *whc) Close() error {
 	w.r.emit("Close", map[string]interface{}{"hc": w.h.id, "g": w.r.gnumOf(goid())})
 	if c, ok := w.inner.(io.Closer); ok {
+		defer func() { // e.g. a second Close of the same host client: the cleaner goroutine must not take the run down
+			if x := recover(); x != nil {
+				w.r.emit("Panic", map[string]interface{}{"p": 0, "what": fmt.Sprint(x)})
+			}
+		}()
 		return c.Close()
 	}
 	return nil
